@@ -243,7 +243,21 @@ def skeleton(u, repo):
     uncontracted = sorted(f for f in extracted if f not in contracted and f in called and f != "main")
     missing = sorted(f for f in defined if f in called and f not in extracted and f not in ("new", "from", "fmt", "eq", "hash", "clone", "map", "source", "len", "next", "into", "push"))
     lost = [h["id"] for it in u.items for h in it.hints_lost]
-    return {"intact": not uncontracted and not missing and not lost, "uncontracted_helpers": uncontracted, "unextracted_helpers_called": missing, "hint_anchors_lost": lost}
+    # control structure of every contracted function vs. the fingerprint recorded for the tree the proofs were written on
+    from vx.extract import fn_fingerprints
+    import json
+    try:
+        known = json.load(open(os.path.join(u.verif, "contracts", "fingerprints.json"))).get(u.name, {})
+    except OSError:
+        known = {}
+    reshaped = []
+    for it in u.items:
+        for fn, fp in fn_fingerprints(it.raw_text).items():
+            key = f"{it.relpath}::{it.anchor.split(' :: ')[0][:60]}::{fn}"
+            if fn in contracted and known.get(key) not in (None, fp):
+                reshaped.append(fn)
+    return {"intact": not uncontracted and not missing and not lost and not reshaped, "uncontracted_helpers": uncontracted,
+            "unextracted_helpers_called": missing, "hint_anchors_lost": lost, "control_structure_changed": sorted(set(reshaped))}
 
 
 def run_unit(unit_mod, prop, repo, verif, workdir, tier, log):
